@@ -327,6 +327,31 @@ pub fn run(ctx: &Ctx) -> i32 {
             col.note(format!("corpus statement does not parse: {} -> {:?}", s, observe(s)));
         }
     }
+    // aggregates in every syntactic position (accepted or rejected: either is an answer); their prefixes and token mutants
+    // are enumerated like those of the corpus
+    let mut corpus = corpus;
+    corpus.extend([
+        "SELECT CASE WHEN MAX(x) > 10 THEN 1 ELSE 0 END FROM t",
+        "SELECT k, CASE WHEN COUNT(*) > 1 THEN 'many' ELSE 'one' END FROM t GROUP BY k",
+        "SELECT CASE WHEN x > 1 THEN MAX(x) ELSE MIN(x) END FROM t",
+        "SELECT (MAX(x), 1) FROM t",
+        "SELECT x IN (MAX(x), 1) FROM t",
+        "SELECT MAX(x) IN (1, 2) FROM t",
+        "SELECT ARRAY[MAX(x), MIN(x)] FROM t",
+        "SELECT MAX(a)[1] FROM t",
+        "SELECT a[MAX(x)] FROM t",
+        "SELECT MAX(x)::text, NOT BOOL_AND(b), -MAX(x) IS NULL FROM t",
+        "SELECT MAX(MIN(x)) FROM t",
+        "SELECT MAX(x) + MIN(x) * COUNT(*) FROM t",
+        "SELECT upper(STRING_AGG(s, ',')) FROM t",
+        "SELECT MAX(x) FROM t WHERE MAX(x) > 1",
+        "SELECT x FROM t GROUP BY MAX(x)",
+        "SELECT COUNT(*) FROM t HAVING CASE WHEN MAX(x) > 1 THEN TRUE ELSE FALSE END",
+        "SELECT COUNT(*) FROM t HAVING MAX(x) IN (1, 2) AND (MIN(x), 1) = (1, 1)",
+        "SELECT COUNT(DISTINCT CASE WHEN x > 1 THEN x END) FROM t",
+        "SELECT EXTRACT(HOUR FROM MAX(ts)) FROM t",
+        "SELECT PERCENTILE(x, MAX(x)) FROM t",
+    ]);
     let record = |col: &Collector, text: &str, layer: &str, rank: u64, mutated: bool| {
         let (fs, obs) = judge(text, layer, rank);
         col.eval(1);
